@@ -34,6 +34,7 @@ def must_see(tier):
             'setstate-zero-on-live': 20, 'subclass-default': 20,
             'session-steps': 500, 'session:commit': 50, 'session:evict': 30,
             'session:abort': 20, 'session:attr': 20,
+            'session:registration-refused': 10,
             'db-schedules:extra-attribute': 30}
 
 
@@ -285,6 +286,32 @@ def run_sessions(rng, rec, Length, s):
             x.obj.set(v)
             x.lv = v
             x.dirty = True
+        elif .40 <= r < .44 and not x.dirty:
+            # the data manager refuses to take the object into its
+            # transaction (register() raises): the update is refused as a
+            # whole - a value that shows the change anyway would survive the
+            # abort that has to follow (only registered objects are
+            # invalidated) and be written by a later transaction
+            d = rng.choice([1, -1, 5])
+            what = ('refused', sess.index(x), d)
+            activate(x)
+            x.conn.fail_register = 1
+            try:
+                if rng.random() < .5:
+                    x.obj.change(d)
+                else:
+                    x.obj.set(x.lv + d)
+                refused = False
+            except minidb.DMBoom:
+                refused = True
+            finally:
+                x.conn.fail_register = 0
+            if refused:
+                rec.ev('session:registration-refused')
+            else:
+                # (already registered after all: an ordinary update)
+                x.lv += d
+                x.dirty = True
         elif r < .40:
             # an application attribute on the counter object: the object is
             # modified (and written), its value is not
@@ -335,7 +362,7 @@ def run_sessions(rng, rec, Length, s):
         rec.ev('session-steps')
         rec.ev('session:' + what[0])
         rec.seen('session', what[0], x.dirty, x.loaded)
-        if what[0] in ('change', 'set', 'read', 'attr'):
+        if what[0] in ('change', 'set', 'read', 'attr', 'refused'):
             got = x.obj()
             if got != x.lv:
                 rec.violation('loaded-counter-shows-wrong-value',
